@@ -209,7 +209,10 @@ def run_highbytes(desc):
             forms.append(('set', neg, (('p', name),)))
     forms += [('set', False, (('r', 'a', 'z'),)), ('set', True, (('r', 'a', 'z'),)), ('set', False, (('c', '\xe9'),)),
               ('set', True, (('c', '\xe9'),)), ('set', False, (('r', '\xc0', '\xff'),)), ('set', True, (('r', '\x80', '\xbf'),)),
-              ('set', False, (('c', 'a'), ('p', 'digit'), ('c', '\xff')))]
+              ('set', False, (('c', 'a'), ('p', 'digit'), ('c', '\xff'))),
+              # brackets made of reversed ranges only: nothing / any one byte
+              ('set', True, (('r', 'z', 'a'),)), ('set', False, (('r', 'z', 'a'),)), ('set', True, (('r', '9', '0'), ('r', 'b', 'a'))),
+              ('set', False, (('r', 'z', 'a'), ('c', '\xe9')))]
     highs = [bytes([b]) for b in range(0x80, 0x100)] + [b'a', b'Z', b'5', b' ', b'_']
     for node in forms:
         seq = (node,)
